@@ -178,9 +178,14 @@ def run(chk):
             chk.disagree(c, ("L=[%s] ev=%s" % (L, ev))[:600], ("L=[%s] ev=%s" % (mm.group(2) if mm else "?", m_ev))[:600], "activepeers/stress-trace-replay")
     if si:
         chk.sample(dict(case=st[0], impl=si[0][:300]))
+    # real histories: whole networks on the fabric (dials, disconnects, restarts, partitions); every ActivePeers
+    # instance's recorded operations, each with the pre-state it saw, are replayed on ActivePeers.v and the
+    # subscriber's events and final listing compared with the model's
+    import simnet
+    simnet.run_netscripts(chk, 12 if quick else 150, [3, 4], lambda r: r.randrange(4, 10), dict(fault=0.25, restart=0.1, known=0.05, pin=0.05), "fabric:histories", focus="aphist")
     chk.assumptions += ["quinn stable ids are unique among live connections (hypothesis NoDup (ids_added ops) of C04_never_lists_closed)",
                         "the single RwLock makes every method atomic (the H4 trace is taken under the lock)",
-                        "fabric histories of whole networks (dials, remote closes, losses) are replayed through the same model by the C09 check"]
+                        "the k-th ActivePeers instance to appear in a fabric trace belongs to the k-th node start of the scenario (every start subscribes at once)"]
     if not quick:
         ok, out = coqchk(chk.prop)
         chk.extra["coqchk"] = "ok" if ok else out[-500:]
